@@ -33,6 +33,18 @@ WEIGHTS_PLAIN = {"insert": 30, "delete": 16, "compact": 10, "vacuum": 4, "reopen
 NAMES = ["t0", "t1", "t2"]
 
 
+class Gen3(sg.Gen):
+    """now and then a NULL aimed at a NOT NULL / PRIMARY KEY column: the INSERT must be rejected, also
+    after a reopen (the constraint flags are part of the persisted catalog)"""
+    null_in_nn = 0.03
+
+    def gen_val(self, ty, nn, wide=False):
+        if nn and self.r.random() < self.null_in_nn:
+            self.count("value:null-in-nonnull")
+            return None
+        return super().gen_val(ty, nn, wide)
+
+
 def witnesses():
     a = sg.TableDef("t0", [("x", "INT", False, False)])
     b = sg.TableDef("t1", [("x", "INT", False, False)])
@@ -57,8 +69,28 @@ def witnesses():
               dall, {"k": "compact"}, {"k": "reopen"}, {"k": "reopen"}, ins(a, [5]), dall]
     w_view = [cr(a), view, {"k": "reopen"}]
     w_idx = [cr(a), {"k": "index", "name": "i0", "table": "t0", "sql": "create index i0 on t0 using btree (x)"}, cr(b), ins(b, [4]), {"k": "reopen"}]
+    # ---- the catalog across reopen (model-free oracle `impl:<step>:catalog`): DDL on tables that own no
+    # row-set, DROP + re-CREATE of a name, constraint flags re-checked by an INSERT of NULL after reopen
+    drop0 = {"k": "drop", "name": "t0", "sql": "drop table t0"}
+    a2 = sg.TableDef("t0", [("y", "BIGINT", False, False), ("z", "STRING", True, False)])
+    k3 = sg.TableDef("t1", [("p", "INT", True, True), ("q", "INT", True, False), ("r", "STRING", False, False)])
+
+    def insk(rows):
+        return {"k": "insert", "table": "t1", "rows": rows, "def": k3, "sql": "insert into t1 values %s" % ", ".join(
+            "(" + ", ".join(sg.sql_lit(v, c[1]) for v, c in zip(row, k3.cols)) + ")" for row in rows)}
+    w_drop_empty = [cr(a), drop0, {"k": "reopen"}, cr(a), ins(a, [1]), {"k": "reopen"}]
+    w_drop_emptied = [cr(a), ins(a, [1, 2]), ins(a, [3]), dall, {"k": "compact"}, {"k": "vacuum"}, drop0, {"k": "reopen"}, cr(b), {"k": "reopen"}]
+    w_recreate = [cr(a), drop0, cr(a2), {"k": "reopen"},
+                  {"k": "insert", "table": "t0", "rows": [(7, "ab")], "def": a2, "sql": "insert into t0 values (7, 'ab')"},
+                  drop0, cr(a), {"k": "reopen"}, ins(a, [9]), {"k": "reopen"}]
+    w_flags = [cr(k3), insk([(1, 10, "a")]), {"k": "reopen"}, insk([(2, None, "b")]), insk([(None, 5, "b")]), insk([(3, 30, None)]),
+               {"k": "reopen"}, insk([(4, None, None)]), cr(a), {"k": "reopen"}, insk([(None, None, None)]), insk([(5, 50, "zz")])]
     o = (4096, 128, 1, 1)
     return [
+        sg.make_hist(900011, o, NAMES, w_drop_empty),
+        sg.make_hist(900012, o, NAMES, w_drop_emptied),
+        sg.make_hist(900013, o, NAMES, w_recreate),
+        sg.make_hist(900014, o, NAMES, w_flags),
         sg.make_hist(900001, o, NAMES, w_panic, expect_sig="reopen:view-shifts-table-id"),
         sg.make_hist(900002, o, NAMES, w_swap, expect_sig="reopen:view-shifts-table-id"),
         sg.make_hist(900003, o, NAMES, w_dv),      # former finding reopen:stale-dv-of-dropped-table (fixed 5071ff5): must simply agree
@@ -82,7 +114,7 @@ def run(ck):
     if not ok:
         ck.report("build:harness", "harness does not build against the repository", replay={"log": log[-2000:]}, found_input=False)
         return ck.finish(level="proof")
-    g = sg.Gen(ck.seed * 104729 + 3, "c03")
+    g = Gen3(ck.seed * 104729 + 3, "c03")
     hists = []
     for i in range(n):
         # a third of the histories has no view/index so that the recorded id-shift / view-loss
@@ -99,6 +131,8 @@ def run(ck):
     for name, st in bad.items():
         ck.report("thm:" + name, "theorem %s is not discharged: %s" % (name, st.get("status")),
                   replay={"theorem": name, "status": st}, found_input=False)
+    ck.coverage["catalog_oracle"] = {"steps_with_catalog_equal_to_declared_ddl": totals.get("cat_checked", 0),
+                                      "ordered_scans_checked": totals.get("kseq_checked", 0)}
     ck.coverage.update({
         "evaluations": len(hists) + len(fixed),
         "steps": totals.get("steps", 0),
